@@ -161,7 +161,7 @@ func verifC04Setup() *verifC04Oracle {
 	o := &verifC04Oracle{}
 	o.round = basics.Round(vr.U64("round"))
 	o.period = period(vr.U64("period"))
-	o.step = step(vr.Choice("step", vr.Param(4, 5))) // propose, soft, cert, next, next+1
+	o.step = step(vr.Choice("step", 4)) // propose, soft, cert, next, next+1
 	for i := 0; i < verifC04Senders; i++ {
 		for v := 0; v < verifC04Values; v++ {
 			o.sigOK[i][v] = vr.Bool("sigok")
@@ -184,8 +184,8 @@ func verifC04Bundle(o *verifC04Oracle) unauthenticatedBundle {
 	var b unauthenticatedBundle
 	b.Round, b.Period, b.Step = o.round, o.period, o.step
 	b.Proposal = verifC04Value(verifC04Pick("bundlevalue", verifC04Values))
-	nv := vr.Choice("nvotes", vr.Param(3, 4))
-	ne := vr.Choice("neqvotes", vr.Param(2, 3))
+	nv := vr.Choice("nvotes", 3)
+	ne := vr.Choice("neqvotes", 2)
 	vnames := []string{"v0", "v1", "v2"}
 	for i := 0; i < nv; i++ {
 		var va voteAuthenticator
@@ -249,7 +249,7 @@ func verifC04ProvesQuorum(o *verifC04Oracle, b unauthenticatedBundle) bool {
 	return total.Ge(vr.ZU(o.threshold))
 }
 
-//verif:harness prop=C04 reach=done,accepted,rejected unwind=10 budget=280 thorough.budget=7000
+//verif:harness prop=C04 reach=done,accepted,rejected unwind=10 budget=280 thorough.budget=3000
 //verif:stub github.com/algorand/go-algorand/agreement.membership = verifStubMembership
 //verif:stub (github.com/algorand/go-algorand/crypto.OneTimeSignatureVerifier).Verify = verifStubOTSVerify
 //verif:stub (github.com/algorand/go-algorand/data/committee.UnauthenticatedCredential).Verify = verifStubCredVerify
